@@ -76,7 +76,7 @@ pub enum ApiCase {
     Lfo { fs: f32, calls: Vec<LfoCall> },
     Glide { fs: f32, calls: Vec<GlideCall> },
     Quant { calls: Vec<QuantCall> },
-    Ribbon { rate_idx: u8, softpot_idx: u8, dropper_frac: f32, pullup_factor: f32, calls: Vec<RibbonCall> },
+    Ribbon { rate_idx: u16, softpot_idx: u8, dropper_frac: f32, pullup_factor: f32, calls: Vec<RibbonCall> },
     Midi { channel: u8, calls: Vec<MidiCall> },
     Liveness { fs: f32, att: f32, dec: f32, rel: f32, sus: f32 },
 }
